@@ -64,16 +64,34 @@ def generate(run_seed, tier):
         # third field: restart (adopt the reloaded key) or keep using the
         # same live object for the next serialisation
         restart = r.random() < 0.65
+        how = r.choice(["bytes", "bytes", "bytes", "reuse", "reuse",
+                        "bytearray", "mv", "arrayB", "arrayb", "mvb"])
         if r.random() < 0.55:
-            chain.append(["sk", r.choice(sk_f), restart])
+            chain.append(["sk", r.choice(sk_f), restart, how])
         else:
-            chain.append(["vk", r.choice(vk_f), restart])
+            chain.append(["vk", r.choice(vk_f), restart, how])
     if r.random() < 0.5:
         chain.append(["model_sk", r.choice([f for f in sk_f if f != "pickle"])])
     if r.random() < 0.5:
         chain.append(["model_vk", r.choice([f for f in vk_f if f != "pickle"])])
     return dict(curve=cname, d=d, chain=chain,
                 hash=r.choice(["sha1", "sha256", "sha512", "synth24"]))
+
+
+# one writable buffer that the "application" re-uses for every key it reads
+# (a library that keeps a view into the caller's buffer would see it change)
+_REUSE = bytearray(16384)
+
+
+def _present(data, how):
+    """The persisted bytes as the loader receives them."""
+    if how == "reuse" and len(data) <= len(_REUSE):
+        _REUSE[:len(data)] = data
+        return memoryview(_REUSE)[:len(data)]
+    if how in ("bytes", "reuse"):
+        return data
+    from .c12 import _as_buffer
+    return _as_buffer(data, how)
 
 
 def execute(prog):
@@ -165,11 +183,16 @@ def execute(prog):
                              "peer recovered curve %s d=%r Q=%r, want %s %d %r"
                              % (c2.name, d2, Q2, mc.name, d, Q))
                 # restart: reload from the persisted bytes only
+                how = ent[3] if len(ent) > 3 else "bytes"
+                if fmt == "pickle" or fmt.startswith("pem") or \
+                        ":pem" in fmt or fmt.split(":")[0] == "pem":
+                    how = "bytes"       # text / pickle stay plain bytes
                 try:
+                    arg = _present(data, how)
                     if private:
-                        new = formats.sk_load(lk, data, fmt, curve, hf)
+                        new = formats.sk_load(lk, arg, fmt, curve, hf)
                     else:
-                        new = formats.vk_load(lk, data, fmt, curve, hf)
+                        new = formats.vk_load(lk, arg, fmt, curve, hf)
                 except Exception as e:
                     fail("reload", "%s-%s" % (where, type(e).__name__),
                          "loading what was %s raised %r" % (
